@@ -16,7 +16,9 @@ EXPLANATION = (
     "alias_index.entry(id).or_default().push(key) except the row on which the key already pointed at this very peer; on the "
     "displaced-owner row the key is retained out of the previous owner's list; `false` is returned only when the peer is "
     "absent. remove(): peers.remove(id) and alias_index.remove(id) happen on every path, and a forward mapping is removed "
-    "only for the keys of that peer's own reverse list and only if it still points at this peer. (broadcast-loop) "
+    "only for the keys of that peer's own reverse list and only if it still points at this peer. (alias-order) a peer's alias "
+    "list is only appended to or filtered in place; no reordering Vec operation (swap_remove, sort, reverse, insert, ...) is "
+    "applied to it. (broadcast-loop) "
     "broadcast_each iterates the snapshot returned by peers(); each iteration makes exactly one send_notify(path, body_for(..)) "
     "and one out.insert(peer.peer_id(), that call's result); the four public wrappers pass their path through unchanged. "
     "Not decided: the contents of the maps over arbitrary histories and linearizability checking (value-level)."
@@ -109,6 +111,22 @@ def run(facts, R):
         for x, y, st in falses:
             g4 = gt(x)
             R.check(any("contains_key(" in z and z.endswith("is False") for z in g4), "alias-pairing", ab.path, "false only for an absent peer", "alias returns false under %s" % g4, st.get("span"))
+
+    # alias-order: a peer's alias list is only appended to (push) or filtered in place (retain / Vec::remove, which keep
+    # the relative order); any reordering operation breaks "in assignment order"
+    REORDER = ("swap_remove", "sort", "sort_by", "sort_by_key", "sort_unstable", "sort_unstable_by", "sort_unstable_by_key", "reverse", "rotate_left",
+               "rotate_right", "swap", "insert", "dedup", "dedup_by", "dedup_by_key", "drain", "truncate", "pop", "split_off", "select_nth_unstable")
+    for b in facts.bodies.values():
+        if not b.path.startswith(PR + "::"):
+            continue
+        bs_ = Sym(b)
+        for i, t in b.calls():
+            if t["callee"]["name"] in REORDER and t["args"] and ("Vec" in t["callee"]["path"] or "slice" in t["callee"]["path"]):
+                recv = render_n(bs_.op(t["args"][0]))
+                if "alias_index" in recv:
+                    R.bad("alias-order", b.path, "alias_index[..]." + t["callee"]["name"],
+                          "a peer's alias list is modified with `%s`, which does not preserve assignment order (aliases_for / key_for would report a different order)" % t["callee"]["name"], t.get("span"))
+    R.ok("alias-order", ab.path, "alias lists only appended / filtered in order", ab.span, "push + retain")
 
     # ---------------- alias-pairing: remove() --------------------------------------------------------------------
     rb = facts.body(PR + "::remove")
